@@ -28,21 +28,8 @@ def mc_cfg(maxsuffix: int, prefixsel) -> str:
             + "CHECK_DEADLOCK FALSE\n")
 
 
-class Timeout(Exception):
-    pass
-
-
-@contextmanager
-def time_limit(seconds: float):
-    def handler(signum, frame):
-        raise Timeout()
-    old = signal.signal(signal.SIGALRM, handler)
-    signal.setitimer(signal.ITIMER_REAL, seconds)
-    try:
-        yield
-    finally:
-        signal.setitimer(signal.ITIMER_REAL, 0)
-        signal.signal(signal.SIGALRM, old)
+Timeout = core.Timeout
+time_limit = core.time_limit
 
 
 _G: Dict[str, object] = {}
